@@ -471,7 +471,85 @@ def pd4(model):
                 else:
                     r.fail(paired, 'position advanced by %s, but %s characters were removed'
                            % (unparse(paired.value), unparse(k) if k is not None else 'len(text)'))
+    _pd4_amounts(model, r)
     return r
+
+
+class _TrimEval(object):
+    pass
+
+
+def _pd4_amounts(model, r):
+    """wherever a block changes T.txt and advances T.pos, the advance equals the number of
+    characters removed: symbolic lengths (slices, find, partition, len)"""
+    from ..symlen import SymEval, State, Int, Seq
+    from ..affine import Aff
+
+    funcs = {}
+    for m in model.mods.values():
+        if m.short.startswith('shell') or m.short in ('defs', 'scanner'):
+            continue
+        for n in ast.walk(m.tree):
+            if isinstance(n, ast.AugAssign) and isinstance(n.target, ast.Attribute) \
+                    and n.target.attr == 'pos' and n._fn is not None \
+                    and not (isinstance(n.target.value, ast.Name) and n.target.value.id == 'self') \
+                    and not _listy(model, n.value):
+                funcs[n._fn.qname] = n._fn
+    results = {}
+
+    class Ev(SymEval):
+        def transfer(self, s, st):
+            if isinstance(s, ast.Assign):
+                tg = [x for t in s.targets for x in ast.walk(t)
+                      if isinstance(x, ast.Attribute) and x.attr == 'txt'
+                      and isinstance(x.ctx, ast.Store)
+                      and not (isinstance(x.value, ast.Name) and x.value.id == 'self')]
+                if tg:
+                    import copy as _c
+                    olds = {}
+                    for t in tg:
+                        ld = _c.copy(t)
+                        ld.ctx = ast.Load()
+                        olds[unparse(t.value)] = (self.length(self.ev(ld, st), st), ld)
+                    st = super().transfer(s, st)
+                    for recv, (old, ld) in olds.items():
+                        new = self.length(self.ev(ld, st), st)
+                        st.vars['#trim:' + recv] = (old, new, s)
+                    return st
+            if isinstance(s, ast.AugAssign) and isinstance(s.target, ast.Attribute) \
+                    and s.target.attr == 'pos' and isinstance(s.op, ast.Add):
+                recv = unparse(s.target.value)
+                d = self.as_int(self.ev(s.value, st), st)
+                tr = st.vars.get('#trim:' + recv)
+                if tr is not None and not isinstance(tr, (Int, Seq)):
+                    old, new, node = tr
+                    ok = d is not None and old is not None and new is not None \
+                        and st.facts.prove_eq(d, old - new)
+                    key = id(s)
+                    results[key] = (s, ok and results.get(key, (None, True))[1], d, old, new)
+                return super().transfer(s, st)
+            return super().transfer(s, st)
+
+        def join_val(self, a, b):
+            if isinstance(a, tuple) or isinstance(b, tuple):
+                return a if a == b else None
+            return super().join_val(a, b)
+
+    for q, fn in sorted(funcs.items()):
+        ev = Ev(model, fn)
+        try:
+            ev.run(fn.body, State())
+        except AnalysisError:
+            raise
+    for s, ok, d, old, new in results.values():
+        if ok:
+            r.ok(s, 'advance %r equals the number of characters removed (%r - %r)' % (d, old, new),
+                 nontrivial=True)
+        else:
+            r.fail(s, 'the position is advanced by %r, but %s characters were removed from the '
+                   'front of the text' % (d, '%r' % (old - new) if old is not None and new is not None else 'an unknown number of'),
+                   witness='a multi-character token with text behind the first line break '
+                           '(verbatim content) after a removed line')
 
 
 def _block_of(stmt):
